@@ -316,19 +316,21 @@ func (server *Server) readRequestBody(ctx *Context) (err error) {
 		}
 	} else if ctx.upgrade.Stream == streaming {
 	} else {
+		// The method is looked up whatever the upgrade flags of the request
+		// say: a peer may send flag combinations this package never emits.
+		ctx.f = server.Funcs.GetFunc(ctx.ServiceMethod)
+		if ctx.f == nil {
+			err = errors.New("can't find service " + ctx.ServiceMethod)
+			codec.ReadRequestBody(nil, nil)
+			return
+		}
+		ctx.args = ctx.f.GetValueIn(0)
+		if ctx.args == funcs.ZeroValue {
+			err = errors.New("can't find args")
+			codec.ReadRequestBody(nil, nil)
+			return
+		}
 		if ctx.upgrade.NoRequest != noRequest {
-			ctx.f = server.Funcs.GetFunc(ctx.ServiceMethod)
-			if ctx.f == nil {
-				err = errors.New("can't find service " + ctx.ServiceMethod)
-				codec.ReadRequestBody(nil, nil)
-				return
-			}
-			ctx.args = ctx.f.GetValueIn(0)
-			if ctx.args == funcs.ZeroValue {
-				err = errors.New("can't find args")
-				codec.ReadRequestBody(nil, nil)
-				return
-			}
 			var value []byte
 			if server.noCopy {
 				value = ctx.value
@@ -344,7 +346,7 @@ func (server *Server) readRequestBody(ctx *Context) (err error) {
 				return
 			}
 		}
-		if ctx.upgrade.NoResponse != noResponse && !ctx.f.ReturnOut() {
+		if !ctx.f.ReturnOut() {
 			ctx.reply = ctx.f.GetValueIn(1)
 			if ctx.reply == funcs.ZeroValue {
 				err = errors.New("can't find reply")
